@@ -562,11 +562,37 @@ func judgeTree(d *lib.Driver, v any, o wopts) error {
 			}
 			reqs = append(reqs, "tight\t"+fl+"\t"+sb.String())
 		}
+		// the indented writer (Tab or 0 < Indent): Sen.indentVal, byte for byte
+		indented := strings.HasPrefix(o.writer, "sen.") && (o.indent > 0 || o.tab) && (o.sort || maxMembers(v) <= 1)
+		if indented {
+			fl := ""
+			if o.omitNil {
+				fl += "n"
+			}
+			if o.omitEmpty {
+				fl += "e"
+			}
+			if o.html {
+				fl += "h"
+			}
+			if fl == "" {
+				fl = "-"
+			}
+			tb := "0"
+			if o.tab {
+				tb = "1"
+			}
+			ind := o.indent
+			if ind < 0 {
+				ind = 0
+			}
+			reqs = append(reqs, "indent\t"+fl+"\t"+tb+"\t"+strconv.Itoa(ind)+"\t"+sb.String())
+		}
 		ans, err := d.Ask(reqs)
 		if err != nil {
 			return err
 		}
-		if ans[0] == "bad-op" || (tight && ans[1] == "bad-op") {
+		if ans[0] == "bad-op" || ((tight || indented) && ans[1] == "bad-op") {
 			return fmt.Errorf("driver answered bad-op to %v", reqs)
 		}
 		m := parseModel(ans[0])
@@ -579,6 +605,13 @@ func judgeTree(d *lib.Driver, v any, o wopts) error {
 			if mw, _ := lib.UnhexF(ans[1]); !bytes.Equal(mw, out) {
 				extra["model_written"] = fmt.Sprintf("%q", string(trunc(mw)))
 				add("disagreement", "model:tight-writer", "model and implementation write different bytes", in, extra)
+			}
+		}
+		if indented {
+			rep.Count("tie.indented_writer", 1)
+			if mw, _ := lib.UnhexF(ans[1]); !bytes.Equal(mw, out) {
+				extra["model_written"] = fmt.Sprintf("%q", string(trunc(mw)))
+				add("disagreement", "model:indented-writer", "model (Sen.indentVal) and implementation write different bytes", in, extra)
 			}
 		}
 	}
